@@ -212,8 +212,23 @@ func verifNumberPointsEq(a, b pmetric.NumberDataPointSlice, p string) {
 	if a.Len() != b.Len() {
 		return
 	}
-	for i := 0; i < a.Len(); i++ { // harnesses use at most one point per metric unless points carry distinct times
+	for i := 0; i < a.Len(); i++ {
+		// the order of data points may change: with several points the harnesses give them distinct concrete
+		// times and the decoded point is looked up by time
 		x, y := a.At(i), b.At(i)
+		if a.Len() > 1 {
+			n := 0
+			for j := 0; j < b.Len(); j++ {
+				if b.At(j).Timestamp() == x.Timestamp() {
+					y = b.At(j)
+					n++
+				}
+			}
+			rt.Assert(n == 1, p+".each_point_once")
+			if n != 1 {
+				continue
+			}
+		}
 		rt.Assert(rt.And(x.StartTimestamp() == y.StartTimestamp(), rt.And(x.Timestamp() == y.Timestamp(), x.Flags() == y.Flags())), p+".point_times_flags")
 		val := x.ValueType() == y.ValueType()
 		if x.ValueType() == y.ValueType() {
@@ -314,7 +329,11 @@ func verifMetricEquiv(a, b pmetric.Metric, p string) {
 func verifRoundTripMetrics(p *Producer, c *Consumer, md pmetric.Metrics, tag string) {
 	orig := pmetric.NewMetrics()
 	md.CopyTo(orig)
+	rt.WatchBegin("input", md)
+	h0 := rt.WatchHits()
 	bar, err := p.BatchArrowRecordsFromMetrics(md)
+	rt.Assert(rt.WatchHits() == h0, "C15.frame_input.metrics_untouched")
+	rt.WatchEndTag("input")
 	rt.Assert(err == nil, tag+".encode_ok")
 	if err != nil {
 		return
